@@ -317,3 +317,104 @@ def check_C10(ctx):
             "weighted average of the specification's per-voice selections; I->S: bundled voice + 3 perturbed copies, random "
             "weights: weighted-average law on quantised words, vertex weights => bit-equal waveform, identical voices => <= 64 ulps",
             {})
+
+
+# --------------------------------------------------------------------------- C18
+
+def _faults_cfg(ctx, mode, depth, g, docs="{1, 2, 3}"):
+    p = ctx.path("Gen_Faults_%s_%d_%d.cfg" % (mode, depth, g))
+    open(p, "w").write('CONSTANTS Mode = "%s"  Depth = %d  G = %d  Docs = %s\nSPECIFICATION Spec\n'
+                       'INVARIANTS Emit FaultsNonEmpty\nCHECK_DEADLOCK FALSE\n' % (mode, depth, g, docs))
+    return p
+
+
+def _dedup_faults(cases, prefix=()):
+    seen, out = set(), list(prefix)
+    for c in cases:
+        k = "base%s" % c["id"] if c["kind"] == "base" else json.dumps(c, sort_keys=True)
+        if k in seen:
+            continue
+        seen.add(k)
+        out.append(c)
+    out.sort(key=lambda c: 0 if c["kind"] in ("base", "filebase") else 1)
+    return out
+
+
+def _c18_key(r):
+    import re
+    key = r.get("key", "")
+    m = re.search(r"^(\w+):(.*?)( @ (\S+))?$", key)
+    if m and m.group(1) == "abort":
+        return "abort:" + re.sub(r"\d+", "N", key)[:120]
+    return key
+
+
+def c18_stage(ctx, name, cases, timeout=7200):
+    cpath = ctx.path(name + ".cases.jsonl")
+    rpath = ctx.path(name + ".results.jsonl")
+    write_jsonl(cpath, cases)
+    p = run_jbv(["c18-run", cpath, rpath], timeout=timeout)
+    if p.returncode != 0:
+        log(p.stderr[-3000:])
+        raise ToolError("c18-run failed")
+    rows = read_jsonl(rpath)
+    summary = rows[-1]["summary"]
+    for r in rows[:-1]:
+        ctx.violation(_c18_key(r), "%s: %s  faults=%s" % (name, r["msg"], json.dumps(r["input"]["ops"])[:300]), r)
+    nf = summary["cases"]
+    ctx.traces += nf
+    ctx.evaluations += nf
+    for c in cases:
+        if c["kind"] == "fault":
+            ctx.distinct.add(json.dumps(c, sort_keys=True)[:500])
+    faults = [c for c in cases if c["kind"] == "fault"]
+    if faults:
+        ctx.sample({"stage": name, "fault": faults[len(faults) // 3]})
+    ctx.stage("FAULTS " + name, **summary)
+    if summary["voice"] + summary["error"] + summary["engine_error"] == 0 and nf > 0:
+        raise ToolError("no faulted file was handled at all")
+    return summary
+
+
+def check_C18(ctx):
+    q = ctx.quick()
+    tla = S("gen", "Gen_Faults.tla")
+    import htsvoice
+    # rendered base documents: all single faults (BFS), sampled double faults (-simulate)
+    cases = gen(ctx, "faults-doc-single", _faults_cfg(ctx, "doc", 1, 3 if q else 8), tla, workers=4)
+    c18_stage(ctx, "rendered-single", _dedup_faults(cases))
+    cfg2 = _faults_cfg(ctx, "doc", 2, 3 if q else 8)
+    cases = gen(ctx, "faults-doc-double", cfg2, tla, simulate=(150 if q else 2500, 5), sim_workers=1 if q else 8, timeout=3000)
+    c18_stage(ctx, "rendered-double", _dedup_faults(cases))
+    # the bundled voice, described by the tokenizer
+    bpath = ctx.path("bundled_base.json")
+    json.dump(htsvoice.fault_base(BUNDLED), open(bpath, "w"))
+    fb = [{"kind": "filebase", "id": 0, "path": BUNDLED}]
+    cases = gen(ctx, "faults-file-single", _faults_cfg(ctx, "file", 1, 2 if q else 12, "{1}"), tla, workers=4,
+                env={"BASE": bpath}, timeout=3000)
+    for c in cases:
+        if c["kind"] == "fault":
+            c["base"] = 0
+    if q:
+        faults = [c for c in cases if c["kind"] == "fault"]
+        step = max(1, len(faults) // 700)
+        cases = faults[::step]
+        ctx.exhaustive = False
+    c18_stage(ctx, "bundled-single", _dedup_faults(cases, fb))
+    if not q:
+        cases = gen(ctx, "faults-file-double", _faults_cfg(ctx, "file", 2, 4, "{1}"), tla, workers=8, env={"BASE": bpath},
+                    simulate=(250, 5), sim_workers=8, timeout=3000)
+        for c in cases:
+            if c["kind"] == "fault":
+                c["base"] = 0
+        c18_stage(ctx, "bundled-double", _dedup_faults(cases, fb))
+    ctx.assumptions += ["each faulted file is loaded (load_htsvoice_file, then Engine::load) in a worker subprocess with ulimit -v 2 GiB and a 20 s watchdog",
+                        "only 'voice' or 'error' outcomes are accepted; nothing else is demanded of a faulted file",
+                        "harness builds with overflow-checks on, so arithmetic overflow in the loader is observed as a panic"]
+    ctx.trusted += ["harness/src/c18.rs fault application (mechanical) and subprocess watchdog", "bin/htsvoice.py fault_base"]
+    return ("fault_enumeration",
+            "faults enumerated by TLC from spec/Faults.tla over 3 rendered voices and the bundled voice: every header value x "
+            "replacement class, line deletion/duplication, offset swaps, truncation at every section boundary +-1, byte flips on a "
+            "grid in every text section, token drops / count changes / tree-text defects; all single faults (BFS), sampled "
+            "double faults (-simulate); distinct = distinct fault lists",
+            {})
